@@ -1,3 +1,332 @@
+import PrimitivModel.Gen.DeviceFront
 import PrimitivModel.Model.KernelsMove
+/-
+C08 — all CPU backends compute the same function; the part that follows from
+the structure of the sources.  The table `Gen.DeviceFront` is regenerated from
+primitiv/core/device.{h,cc} and primitiv/devices/{naive,eigen}/device.h on every
+run (translate/device_front.py); the theorems below are decided over it.
+
+Why this gives "the backends accept the same arguments and return the same
+shapes": every member function of `Device` that device.cc defines is
+non-virtual (`fronts_not_virtual`), so a backend cannot replace it, and the
+backends declare nothing but overrides of the `*_impl` hooks, `new_handle`,
+`dump_description`, `type` and their destructor (`backends_override_only_hooks`,
+`backends_hide_nothing`); in each of those shared functions every device check,
+shape precondition and output-shape computation comes before the first call of
+a `*_impl` hook (`shared_checks`).  Hence whether a call is rejected, and the
+shape of the tensor handed to the hook, are computed by code that is the same
+for both backends.  That the hooks then compute the same *values* is the
+statement "both backends refine the one model kernel" — the model has no device
+parameter (`Move.pickFw` … take tensors only) — and is tied to the code by the
+correspondence run of every line on both backends.
+-/
 namespace Primitiv.C08.Move
+open Primitiv.Gen.DeviceFront
+
+/-- scan a statement list: `seen` = a `*_impl` hook has been called on some path -/
+def checksFirst : List Stmt → Bool → Bool
+  | [], _ => true
+  | .check _ :: rest, seen => !seen && checksFirst rest seen
+  | .guard _ :: rest, seen => !seen && checksFirst rest seen
+  | .alloc _ :: rest, seen => !seen && checksFirst rest seen
+  | .handle :: rest, seen => !seen && checksFirst rest seen
+  | .impl _ _ :: rest, _ => checksFirst rest true
+  | .retImpl _ _ :: rest, _ => checksFirst rest true
+  | .other _ :: _, _ => false
+  | _ :: rest, seen => checksFirst rest seen
+
+def isHook (n : String) : Bool :=
+  n.endsWith "_impl" || n == "new_handle" || n == "dump_description" || n == "type" ||
+  n == "~Device" || n == "~Naive" || n == "~Eigen"
+
+/-- every call of another member from a shared function goes to a shared
+(non-virtual) function that is itself in the table -/
+def callsShared (e : Entry) : Bool :=
+  e.stmts.all fun s =>
+    match s with
+    | .call f _ => entries.any (·.name == f) && !deviceVirtuals.contains f
+    | _ => true
+
+/-- Every entry point of `Device` performs all its device checks, shape
+preconditions and output-shape computations before the first `*_impl` call, and
+contains no statement outside the translated subset. -/
+theorem Front.shared_checks : entries.all (fun e => checksFirst e.stmts false && callsShared e) = true := by
+  decide
+
+/-- The functions device.cc defines are not virtual: no backend can replace a
+front-end. -/
+theorem Front.fronts_not_virtual : entries.all (fun e => !deviceVirtuals.contains e.name) = true := by
+  decide
+
+/-- Every virtual member of `Device` is a hook, and every other member is one of
+the shared functions of the table (or an inline handle accessor). -/
+theorem Front.members_partition :
+    deviceVirtuals.all isHook = true ∧
+    deviceMembers.all (fun m => deviceVirtuals.contains m.1 || entries.any (·.name == m.1) ||
+      m.1 == "get_handle" || m.1 == "get_mutable_handle") = true := by
+  decide
+
+/-- The two CPU backends override hooks only … -/
+theorem Front.backends_override_only_hooks :
+    naiveOverrides.all isHook = true ∧ eigenOverrides.all isHook = true := by
+  decide
+
+/-- … declare no member that would hide a shared function, and implement every
+hook. -/
+theorem Front.backends_hide_nothing :
+    naiveDeclared.all (fun n => !entries.any (·.name == n)) = true ∧
+    eigenDeclared.all (fun n => !entries.any (·.name == n)) = true ∧
+    deviceVirtuals.all (fun v => v == "~Device" || (naiveOverrides.contains v && eigenOverrides.contains v)) = true := by
+  decide
+
+/-- The front-ends of the kernels family, as they were when the model
+(`Move.Front.*`, `Move.*`) was written: device checks, guard text, output-shape
+expression and hook call of each entry point. -/
+def modelled : List Entry := [
+  ⟨"new_raw_tensor", "private", [
+      .local "std::size_t allocated_size",
+      .handle,
+      .ret "Tensor(shape, *this, std::move(handle), allocated_size)"
+    ]⟩,
+  ⟨"new_tensor_by_constant", "public", [
+      .local "std::size_t allocated_size",
+      .handle,
+      .local "Tensor ret(shape, *this, std::move(handle), allocated_size)",
+      .call "reset_tensor" "k, ret",
+      .ret "ret"
+    ]⟩,
+  ⟨"new_tensor_by_array", "public", [
+      .local "std::size_t allocated_size",
+      .handle,
+      .local "Tensor ret(shape, *this, std::move(handle), allocated_size)",
+      .call "reset_tensor_by_array" "values, ret",
+      .ret "ret"
+    ]⟩,
+  ⟨"new_tensor_by_vector", "public", [
+      .local "std::size_t allocated_size",
+      .handle,
+      .local "Tensor ret(shape, *this, std::move(handle), allocated_size)",
+      .call "reset_tensor_by_vector" "values, ret",
+      .ret "ret"
+    ]⟩,
+  ⟨"tensor_to_vector", "private", [
+      .check "x",
+      .retImpl "tensor_to_vector_impl" "x"
+    ]⟩,
+  ⟨"argmax", "private", [
+      .check "x",
+      .retImpl "argmax_impl" "x, dim"
+    ]⟩,
+  ⟨"argmin", "private", [
+      .check "x",
+      .retImpl "argmin_impl" "x, dim"
+    ]⟩,
+  ⟨"reset_tensor", "protected", [
+      .check "x",
+      .impl "reset_tensor_impl" "k, x"
+    ]⟩,
+  ⟨"reset_tensor_by_array", "protected", [
+      .check "x",
+      .impl "reset_tensor_by_array_impl" "values, x"
+    ]⟩,
+  ⟨"reset_tensor_by_vector", "protected", [
+      .check "x",
+      .guard "values.size() != x.shape().size()",
+      .impl "reset_tensor_by_array_impl" "values.data(), x"
+    ]⟩,
+  ⟨"copy_tensor", "public", [
+      .guard "!x.valid()",
+      .alloc "x.shape()",
+      .impl "copy_tensor_impl" "x, y",
+      .ret "y"
+    ]⟩,
+  ⟨"identity", "public", [
+      .guard "size == 0",
+      .alloc "{size, size}",
+      .impl "identity_impl" "y",
+      .ret "y"
+    ]⟩,
+  ⟨"pick_fw", "public", [
+      .check "x",
+      .alloc "shape_ops::pick(x.shape(), ids, dim)",
+      .impl "pick_fw_impl" "x, ids, dim, y",
+      .ret "y"
+    ]⟩,
+  ⟨"slice_fw", "public", [
+      .check "x",
+      .alloc "shape_ops::slice(x.shape(), dim, lower, upper)",
+      .impl "slice_fw_impl" "x, dim, lower, y",
+      .ret "y"
+    ]⟩,
+  ⟨"concat_fw", "public", [
+      .guard "xs.empty()",
+      .local "vector<Shape> shapes",
+      .local "shapes.reserve(xs.size())",
+      .loopBegin "std::uint32_t i = 0; i < xs.size(); ++i",
+      .check "*xs[i]",
+      .local "shapes.emplace_back(xs[i]->shape())",
+      .loopEnd,
+      .alloc "shape_ops::concat(shapes, dim)",
+      .impl "concat_fw_impl" "xs, dim, y",
+      .ret "y"
+    ]⟩,
+  ⟨"pick_bw", "public", [
+      .check "gy",
+      .check "gx",
+      .local "const Shape sy = shape_ops::pick(gx.shape(), ids, dim)",
+      .guard "gy.shape() != sy",
+      .impl "pick_bw_impl" "gy, ids, dim, gx"
+    ]⟩,
+  ⟨"slice_bw", "public", [
+      .check "gy",
+      .check "gx",
+      .local "const Shape &sy = gy.shape()",
+      .local "const Shape &sx = gx.shape()",
+      .guard "!sy.has_same_loo_dims(sx, dim) || !sy.has_compatible_batch(sx) || offset > sx[dim] || sy[dim] > sx[dim] - offset",
+      .branchBegin "dim >= sx.depth()",
+      .impl "inplace_add_impl" "gy, gx",
+      .branchElse,
+      .impl "slice_bw_impl" "gy, dim, offset, gx",
+      .branchEnd
+    ]⟩,
+  ⟨"transpose_fw", "public", [
+      .check "x",
+      .alloc "shape_ops::transpose(x.shape())",
+      .impl "transpose_fw_impl" "x, y",
+      .ret "y"
+    ]⟩,
+  ⟨"permute_dims_fw", "public", [
+      .check "x",
+      .alloc "shape_ops::permute_dims(x.shape(), perm)",
+      .impl "permute_dims_fw_impl" "x, perm, y",
+      .ret "y"
+    ]⟩,
+  ⟨"transpose_bw", "public", [
+      .check "x",
+      .check "y",
+      .check "gy",
+      .check "gx",
+      .guard "x.shape() != gx.shape() || y.shape() != gy.shape() || y.shape() != shape_ops::transpose(x.shape())",
+      .impl "transpose_bw_impl" "x, y, gy, gx"
+    ]⟩,
+  ⟨"permute_dims_bw", "public", [
+      .check "x",
+      .check "y",
+      .check "gy",
+      .check "gx",
+      .local "const Shape &s = x.shape()",
+      .local "const Shape sy = shape_ops::permute_dims(x.shape(), perm)",
+      .guard "y.shape() != sy || gy.shape() != sy || gx.shape() != s",
+      .impl "permute_dims_bw_impl" "x, y, gy, perm, gx"
+    ]⟩,
+  ⟨"flip_fw", "public", [
+      .check "x",
+      .alloc "x.shape()",
+      .impl "flip_fw_impl" "x, dim, y",
+      .ret "y"
+    ]⟩,
+  ⟨"flip_bw", "public", [
+      .check "gy",
+      .check "gx",
+      .guard "gy.shape() != gx.shape()",
+      .impl "flip_bw_impl" "gy, dim, gx"
+    ]⟩,
+  ⟨"max_fw", "public", [
+      .check "x",
+      .alloc "x.shape().resize_dim(dim, 1)",
+      .impl "max_fw_impl" "x, dim, y",
+      .ret "y"
+    ]⟩,
+  ⟨"min_fw", "public", [
+      .check "x",
+      .alloc "x.shape().resize_dim(dim, 1)",
+      .impl "min_fw_impl" "x, dim, y",
+      .ret "y"
+    ]⟩,
+  ⟨"max_bw", "public", [
+      .check "x",
+      .check "y",
+      .check "gy",
+      .check "gx",
+      .local "const Shape &r = x.shape()",
+      .local "const Shape s = r.resize_dim(dim, 1)",
+      .guard "gx.shape() != r || y.shape() != s || gy.shape() != s",
+      .impl "max_bw_impl" "x, y, gy, dim, gx"
+    ]⟩,
+  ⟨"min_bw", "public", [
+      .check "x",
+      .check "y",
+      .check "gy",
+      .check "gx",
+      .local "const Shape &r = x.shape()",
+      .local "const Shape s = r.resize_dim(dim, 1)",
+      .guard "gx.shape() != r || y.shape() != s || gy.shape() != s",
+      .impl "min_bw_impl" "x, y, gy, dim, gx"
+    ]⟩,
+  ⟨"sum_fw", "public", [
+      .check "x",
+      .alloc "x.shape().resize_dim(dim, 1)",
+      .impl "sum_fw_impl" "x, dim, y",
+      .ret "y"
+    ]⟩,
+  ⟨"broadcast_fw", "public", [
+      .check "x",
+      .alloc "shape_ops::broadcast(x.shape(), dim, size)",
+      .impl "broadcast_fw_impl" "x, dim, size, y",
+      .ret "y"
+    ]⟩,
+  ⟨"batch_pick_fw", "public", [
+      .check "x",
+      .alloc "shape_ops::batch_pick(x.shape(), ids)",
+      .impl "batch_pick_fw_impl" "x, ids, y",
+      .ret "y"
+    ]⟩,
+  ⟨"batch_slice_fw", "public", [
+      .check "x",
+      .alloc "shape_ops::batch_slice(x.shape(), lower, upper)",
+      .impl "batch_slice_fw_impl" "x, lower, y",
+      .ret "y"
+    ]⟩,
+  ⟨"batch_concat_fw", "public", [
+      .guard "xs.empty()",
+      .local "vector<Shape> shapes",
+      .local "shapes.reserve(xs.size())",
+      .loopBegin "std::uint32_t i = 0; i < xs.size(); ++i",
+      .check "*xs[i]",
+      .local "shapes.emplace_back(xs[i]->shape())",
+      .loopEnd,
+      .alloc "shape_ops::batch_concat(shapes)",
+      .impl "batch_concat_fw_impl" "xs, y",
+      .ret "y"
+    ]⟩,
+  ⟨"batch_sum_fw", "public", [
+      .check "x",
+      .alloc "x.shape().resize_batch(1)",
+      .impl "batch_sum_fw_impl" "x, y",
+      .ret "y"
+    ]⟩,
+  ⟨"batch_pick_bw", "public", [
+      .check "gy",
+      .check "gx",
+      .local "const Shape sy = shape_ops::batch_pick(gx.shape(), ids)",
+      .guard "gy.shape() != sy",
+      .impl "batch_pick_bw_impl" "gy, ids, gx"
+    ]⟩,
+  ⟨"batch_slice_bw", "public", [
+      .check "gy",
+      .check "gx",
+      .local "const Shape &sy = gy.shape()",
+      .local "const Shape &sx = gx.shape()",
+      .guard "!sy.has_same_dims(sx) || offset > sx.batch() || sy.batch() > sx.batch() - offset",
+      .impl "batch_slice_bw_impl" "gy, offset, gx"
+    ]⟩
+]
+
+/-- The source still has exactly these statements for the entry points the
+`kernels` model describes (in particular the wrap-free guards of `slice_bw` and
+`batch_slice_bw`, `Move.Front.sliceBwGuard`). -/
+theorem Front.kernels_fronts_as_modelled :
+    modelled.all (fun m => entries.any (fun e => e == m)) = true := by
+  decide
+
 end Primitiv.C08.Move
